@@ -352,6 +352,109 @@ theorem C07_received_spec (proto : Bytes) (p : Peer) (helo : Option Bytes) (t : 
     simp [lFrom, lHelo, lClose, lParen, lAt, lBy, lWith, lSemi, Nq.Spec.C07.wFrom, Nq.Spec.C07.wHelo,
       Nq.Spec.C07.wClose, Nq.Spec.C07.wOpen, Nq.Spec.C07.wAt, Nq.Spec.C07.wBy, Nq.Spec.C07.wWith, Nq.Spec.C07.wSemi]
 
+section wellformed
+open Nq.Spec.C07 (wfAux wfPlain wf822)
+
+theorem wfAux_plain (d : Nat) (c : Byte) (r : Bytes) (h : wfPlain c = true) : wfAux d (c :: r) = wfAux d r := by
+  have h10 : c ≠ 10 := by intro e; subst e; revert h; decide
+  have h40 : c ≠ 40 := by intro e; subst e; revert h; decide
+  have h41 : c ≠ 41 := by intro e; subst e; revert h; decide
+  cases r with
+  | nil => simp [wfAux, h10]
+  | cons n r => simp [wfAux, h10, h40, h41, h]
+
+theorem wfAux_open (d : Nat) (r : Bytes) : wfAux d (40 :: r) = wfAux (d + 1) r := by
+  cases r <;> simp [wfAux]
+
+theorem wfAux_close (d : Nat) (r : Bytes) : wfAux (d + 1) (41 :: r) = wfAux d r := by
+  cases r <;> simp [wfAux]
+
+/-- a fold: LF followed by a space continues the field -/
+theorem wfAux_fold (d : Nat) (r : Bytes) : wfAux d (10 :: 32 :: r) = wfAux d (32 :: r) := by
+  simp [wfAux]
+
+theorem wfAux_plain_append (d : Nat) : ∀ (xs r : Bytes), (∀ c ∈ xs, wfPlain c = true) → wfAux d (xs ++ r) = wfAux d r
+  | [], _, _ => rfl
+  | c :: xs, r, h => by
+    rw [List.cons_append, wfAux_plain d c _ (h c (by simp))]
+    exact wfAux_plain_append d xs r (fun b hb => h b (by simp [hb]))
+
+set_option maxRecDepth 100000 in
+theorem sanitize_plain : ∀ c : Byte, wfPlain (sanitize c) = true := byte_cases _ (by decide)
+
+theorem safeput_plain (s : Bytes) : ∀ c ∈ safeput s, wfPlain c = true := by
+  intro b hb
+  unfold safeput at hb
+  rw [List.mem_map] at hb
+  obtain ⟨c, _, rfl⟩ := hb
+  exact sanitize_plain c
+
+set_option maxRecDepth 100000 in
+theorem digit_plain : ∀ c : Byte, isDigit c = true → wfPlain c = true := byte_cases _ (by decide)
+
+theorem fmtU_plain (n : Nat) : ∀ c ∈ fmtU n, wfPlain c = true := fun c h => digit_plain c (fmtU_digits n c h)
+
+theorem fmtU0_plain (u k : Nat) : ∀ c ∈ fmtU0 u k, wfPlain c = true := by
+  intro c h
+  unfold fmtU0 at h
+  rcases List.mem_append.mp h with h | h
+  · rw [List.mem_replicate] at h; rw [h.2]; decide
+  · exact fmtU_plain u c h
+
+theorem months_plain (m : Nat) : ∀ c ∈ months.getD m [], wfPlain c = true := by
+  by_cases h : m < 12
+  · have : ∀ k, k < 12 → ∀ c ∈ months.getD k [], wfPlain c = true := by decide
+    exact this m h
+  · have h2 : months[m]? = none := List.getElem?_eq_none (by simp [months]; omega)
+    have : months.getD m [] = [] := by simp [List.getD, h2]
+    rw [this]; simp
+
+/-- the date ends the field: all of it is plain text up to the final LF -/
+theorem wfAux_date (dt : DT) : wfAux 0 (date822 dt) = true := by
+  unfold date822
+  simp only [List.append_assoc]
+  rw [wfAux_plain_append 0 _ _ (fmtU_plain _), List.singleton_append, wfAux_plain 0 SP _ (by decide),
+    wfAux_plain_append 0 _ _ (months_plain _), List.singleton_append, wfAux_plain 0 SP _ (by decide),
+    wfAux_plain_append 0 _ _ (fmtU_plain _), List.singleton_append, wfAux_plain 0 SP _ (by decide),
+    wfAux_plain_append 0 _ _ (fmtU0_plain _ _), List.singleton_append, wfAux_plain 0 58 _ (by decide),
+    wfAux_plain_append 0 _ _ (fmtU0_plain _ _), List.singleton_append, wfAux_plain 0 58 _ (by decide),
+    wfAux_plain_append 0 _ _ (fmtU0_plain _ _)]
+  decide
+
+/-- **C07_received_wellformed.**  The Received field is a well-formed RFC 822 header field whatever the peer supplied
+    (`Spec.C07.wf822`: printable ASCII only, the single line break is a fold, the last byte is the LF ending the field,
+    comments balanced, no backslash — so no quoted-pair can hide a parenthesis — and no double quote), for every
+    HELO / TCPREMOTE* / TCPLOCAL* string and every clock value. -/
+theorem C07_received_wellformed (proto : Bytes) (p : Peer) (helo : Option Bytes) (t : Nat)
+    (hp : ∀ c ∈ proto, wfPlain c = true) : wf822 (received proto p helo t) = true := by
+  have hFrom : ∀ r, wfAux 0 (lFrom ++ r) = wfAux 0 r := fun r => wfAux_plain_append 0 _ r (by decide)
+  have hHelo : ∀ r, wfAux 0 (lHelo ++ r) = wfAux 1 r := fun r => by
+    show wfAux 0 (32 :: 40 :: 72 :: 69 :: 76 :: 79 :: 32 :: r) = _
+    rw [wfAux_plain 0 32 _ (by decide), wfAux_open]
+    exact wfAux_plain_append 1 [72, 69, 76, 79, 32] r (by decide)
+  have hClose : ∀ r, wfAux 1 (lClose ++ r) = wfAux 0 r := fun r => wfAux_close 0 r
+  have hParen : ∀ r, wfAux 0 (lParen ++ r) = wfAux 1 r := fun r => by
+    show wfAux 0 (32 :: 40 :: r) = _
+    rw [wfAux_plain 0 32 _ (by decide), wfAux_open]
+  have hAt : ∀ r, wfAux 1 (lAt ++ r) = wfAux 1 r := fun r => wfAux_plain_append 1 _ r (by decide)
+  have hBy : ∀ r, wfAux 1 (lBy ++ r) = wfAux 0 r := fun r => by
+    show wfAux 1 (41 :: 10 :: 32 :: 32 :: 98 :: 121 :: 32 :: r) = _
+    rw [wfAux_close, wfAux_fold]
+    exact wfAux_plain_append 0 [32, 32, 98, 121, 32] r (by decide)
+  have hWith : ∀ r, wfAux 0 (lWith ++ r) = wfAux 0 r := fun r => wfAux_plain_append 0 _ r (by decide)
+  have hSemi : ∀ r, wfAux 0 (lSemi ++ r) = wfAux 0 r := fun r => wfAux_plain_append 0 _ r (by decide)
+  unfold wf822 received
+  cases helo <;> cases p.info <;>
+    simp only [List.append_assoc, List.nil_append, hFrom, hHelo, hClose, hParen, hAt, hBy, hWith, hSemi,
+      wfAux_plain_append _ _ _ (safeput_plain _), wfAux_plain_append _ _ _ hp, wfAux_date]
+
+example : wf822 (received pSMTP ⟨some [92, 41], none, some [40, 10], none, none⟩ (some [13, 92]) 0) = true := by decide
+example : (∀ c ∈ pSMTP, wfPlain c = true) ∧ (∀ c ∈ pQMTP, wfPlain c = true) ∧ (∀ c ∈ pQMQP, wfPlain c = true) := by decide
+/-- the oracle's predicate rejects what a backslash from the peer would produce: `(HELO evil\)` never closes -/
+example : wf822 [40, 72, 69, 76, 79, 32, 92, 41, 10] = false ∧ wf822 [40, 72, 69, 76, 79, 32, 63, 41, 10] = true := by decide
+
+end wellformed
+
 /-! ## 4. the replies -/
 
 /-- a verdict as `qmail_close` produces it for a queue program that honours its interface: success, or `D…`, or `Z…` -/
